@@ -91,7 +91,7 @@ let parse_req (c : cur) : M.request =
   | "data" -> let k = next_n c in let pid = next_z c in let d = next_n c in let t = next_z c in M.RData (k, pid, d, t)
   | "master" -> let pid = next_z c in let k = next_n c in let p = next_n c in let t = next_z c in M.RMaster (pid, k, p, t)
   | "error" -> let pid = next_z c in let e = next_opt_tok c in let t = next_z c in M.RError (pid, e, t)
-  | "sigerror" -> let pid = next_z c in let e = next_opt_tok c in let t = next_z c in M.RSigError (pid, e, t)
+  | "sigerror" -> let pid = next_z c in let e = next_opt_tok c in let t = next_z c in let b = next_n c in M.RSigError (pid, e, t, b)
   | "start" ->
     let batch = next_n c in let pid = next_z c in let t = next_z c in
     let n = next_int c in
